@@ -15,6 +15,7 @@ import (
 	"strings"
 
 	"golang.org/x/tools/go/ssa"
+	"golang.org/x/tools/go/ssa/ssautil"
 )
 
 func init() {
@@ -816,6 +817,9 @@ func nondetHits(fn *ssa.Function) []nondetHit {
 				}
 			case *ssa.Call:
 				if x.Call.StaticCallee() != nil && addressSources[calleeFullName(&x.Call)] {
+					if identityOnly(x, 0) && !keysEnumerated(fn.Prog, x) {
+						continue
+					}
 					out = append(out, nondetHit{"stack trace, goroutine or process identity (" + calleeFullName(&x.Call) + ")", x.Pos()})
 				}
 				for _, a := range x.Call.Args {
@@ -829,6 +833,123 @@ func nondetHits(fn *ssa.Function) []nondetHit {
 		}
 	}
 	return out
+}
+
+// identityOnly: the value is used for nothing but to look things up by it —
+// as the key of a map (insert, test, delete), in an equality test, or as a
+// field of a local struct which is itself only used so.  An address used this
+// way decides whether two things are the same thing, and never reaches a
+// result or a printed form.
+func identityOnly(v ssa.Value, depth int) bool {
+	if depth > 3 || v.Referrers() == nil || len(*v.Referrers()) == 0 {
+		return false
+	}
+	for _, ref := range *v.Referrers() {
+		switch x := ref.(type) {
+		case *ssa.DebugRef:
+		case *ssa.MapUpdate:
+			if x.Key != v || x.Value == v {
+				return false
+			}
+		case *ssa.Lookup:
+			if x.Index != v {
+				return false
+			}
+		case *ssa.BinOp:
+			if x.Op != token.EQL && x.Op != token.NEQ {
+				return false
+			}
+		case *ssa.Call:
+			if b, ok := x.Call.Value.(*ssa.Builtin); !ok || b.Name() != "delete" {
+				return false
+			}
+		case *ssa.Defer:
+			if b, ok := x.Call.Value.(*ssa.Builtin); !ok || b.Name() != "delete" {
+				return false
+			}
+		case *ssa.Store:
+			fa, ok := x.Addr.(*ssa.FieldAddr)
+			if !ok || x.Val != v {
+				return false
+			}
+			al, ok := fa.X.(*ssa.Alloc)
+			if !ok || al.Referrers() == nil {
+				return false
+			}
+			for _, r2 := range *al.Referrers() {
+				switch y := r2.(type) {
+				case *ssa.FieldAddr:
+					for _, r3 := range *y.Referrers() {
+						if _, ok := r3.(*ssa.Store); !ok {
+							return false
+						}
+					}
+				case *ssa.UnOp:
+					if y.Op != token.MUL || !identityOnly(y, depth+1) {
+						return false
+					}
+				case *ssa.DebugRef:
+				default:
+					return false
+				}
+			}
+		default:
+			return false
+		}
+	}
+	return true
+}
+
+// keysEnumerated: some loop of the library ranges over a map keyed by the type
+// the address was put into (the keys would then be visible).
+func keysEnumerated(prog *ssa.Program, call *ssa.Call) bool {
+	var keyTypes []types.Type
+	var collect func(v ssa.Value, d int)
+	collect = func(v ssa.Value, d int) {
+		if d > 3 || v.Referrers() == nil {
+			return
+		}
+		for _, ref := range *v.Referrers() {
+			switch x := ref.(type) {
+			case *ssa.MapUpdate:
+				keyTypes = append(keyTypes, x.Map.Type().Underlying().(*types.Map).Key())
+			case *ssa.Store:
+				if fa, ok := x.Addr.(*ssa.FieldAddr); ok {
+					if al, ok := fa.X.(*ssa.Alloc); ok && al.Referrers() != nil {
+						for _, r2 := range *al.Referrers() {
+							if ld, ok := r2.(*ssa.UnOp); ok {
+								collect(ld, d+1)
+							}
+						}
+					}
+				}
+			}
+		}
+	}
+	collect(call, 0)
+	for fn := range ssautil.AllFunctions(prog) {
+		if fn.Pkg == nil || !IsLibPath(fn.Pkg.Pkg.Path()) {
+			continue
+		}
+		for _, b := range fn.Blocks {
+			for _, ins := range b.Instrs {
+				rg, ok := ins.(*ssa.Range)
+				if !ok {
+					continue
+				}
+				mt, ok := rg.X.Type().Underlying().(*types.Map)
+				if !ok {
+					continue
+				}
+				for _, kt := range keyTypes {
+					if types.Identical(mt.Key(), kt) {
+						return true
+					}
+				}
+			}
+		}
+	}
+	return false
 }
 
 func ruleNondetSrc(p *Program, r *Reporter) {
@@ -1338,5 +1459,78 @@ func ruleHashKey(p *Program, r *Reporter) {
 	}
 	if n == 0 {
 		r.Undecided("hash keys", "-", "no HashKey() implementation found")
+	}
+	// the object whose key is taken is the object the script supplied: nothing
+	// the machine made up stands in for it
+	cg := p.CallGraph()
+	var fresh func(v ssa.Value, fn *ssa.Function, depth int, seen map[ssa.Value]bool) token.Pos
+	fresh = func(v ssa.Value, fn *ssa.Function, depth int, seen map[ssa.Value]bool) token.Pos {
+		if v == nil || seen[v] || depth > 4 {
+			return token.NoPos
+		}
+		seen[v] = true
+		switch x := v.(type) {
+		case *ssa.Phi:
+			for _, e := range x.Edges {
+				if ps := fresh(e, fn, depth, seen); ps.IsValid() {
+					return ps
+				}
+			}
+		case *ssa.TypeAssert:
+			return fresh(x.X, fn, depth, seen)
+		case *ssa.Extract:
+			return fresh(x.Tuple, fn, depth, seen)
+		case *ssa.MakeInterface:
+			return fresh(x.X, fn, depth, seen)
+		case *ssa.ChangeInterface:
+			return fresh(x.X, fn, depth, seen)
+		case *ssa.Alloc:
+			if x.Heap && objectStructName(x.Type()) != "" {
+				return x.Pos()
+			}
+		case *ssa.Parameter:
+			if nd := cg.Nodes[fn]; nd != nil && !ast.IsExported(fn.Name()) {
+				idx := -1
+				for i, q := range fn.Params {
+					if q == x {
+						idx = i
+					}
+				}
+				for _, e := range nd.In {
+					if e.Site == nil || idx < 0 {
+						continue
+					}
+					args := e.Site.Common().Args
+					if e.Site.Common().IsInvoke() || idx >= len(args) {
+						continue
+					}
+					if ps := fresh(args[idx], e.Caller.Func, depth+1, seen); ps.IsValid() {
+						return ps
+					}
+				}
+			}
+		}
+		return token.NoPos
+	}
+	nth := map[string]int{}
+	for _, fn := range p.LibFns {
+		if fnPkg(fn).Pkg.Path() != Mod+"/vm" {
+			continue
+		}
+		for _, b := range fn.Blocks {
+			for _, ins := range b.Instrs {
+				cc := callOf(ins)
+				if cc == nil || !cc.IsInvoke() || cc.Method.Name() != "HashKey" {
+					continue
+				}
+				nth[p.FnName(fn)]++
+				key := fmt.Sprintf("%s/hash key %d is taken from the object the script supplied", p.FnName(fn), nth[p.FnName(fn)])
+				if ps := fresh(cc.Value, fn, 0, map[ssa.Value]bool{}); ps.IsValid() {
+					r.Fail(key, p.Pos(ins.Pos()), "on some path the object whose HashKey() is used was made by the machine itself ("+p.Pos(ps)+") in place of the script's value: a key is then stored or looked up under another key's identity — 2.0 under 2, say — so an entry cannot be read back, or two distinct keys name one entry")
+				} else {
+					r.OkNT(key, p.Pos(ins.Pos()), "the receiver is the popped / passed object on every path")
+				}
+			}
+		}
 	}
 }
